@@ -34,6 +34,29 @@ fn shift(t: SystemTime, ms: i128) -> SystemTime {
     }
 }
 
+/// the same packet with its EXT_TIME rewritten to carry SCT-High only (reference decode -> re-encode)
+fn sct_high_only(p: &[u8]) -> Vec<u8> {
+    use crate::rfc::lct::{self, ExtTime, LctSpec};
+    let d = match crate::rfc::pkt::decode(p, 0) {
+        Ok(d) => d,
+        Err(_) => return p.to_vec(),
+    };
+    let t = match &d.time {
+        Some(t) if t.sct_hi.is_some() => t.clone(),
+        _ => return p.to_vec(),
+    };
+    let mut exts = d.lct.exts.clone();
+    for x in exts.iter_mut() {
+        if x.het == lct::EXT_TIME {
+            *x = lct::ext_time(&ExtTime { sct_hi: t.sct_hi, sct_low: None, ert: None, slc: None });
+        }
+    }
+    let spec = LctSpec { version: d.lct.version, psi: d.lct.psi, res: d.lct.res, c: d.lct.c, cci: d.lct.cci, s: d.lct.s, o: d.lct.o, h: d.lct.h, tsi: d.lct.tsi, toi: d.lct.toi, cp: d.lct.cp, close_session: d.lct.close_session, close_object: d.lct.close_object, exts };
+    let mut out = lct::build(&spec);
+    out.extend_from_slice(&p[d.lct.header_len..]);
+    out
+}
+
 pub struct Outcome {
     pub delivered: bool,
     pub any_writer: bool,
@@ -52,8 +75,8 @@ pub fn run_once(c: &Case, offset_s: i64) -> Result<Outcome, String> {
     let (toi, bytes) = drv.add(&o)?;
     drv.publish()?;
     drv.drain(10_000)?;
-    let mut fdt = vec![];
-    let mut obj = vec![];
+    let mut fdt: Vec<Vec<u8>> = vec![];
+    let mut obj: Vec<Vec<u8>> = vec![];
     for r in &drv.log {
         if let Some((b, d)) = r.pkt() {
             if d.lct.toi == 0 {
@@ -61,6 +84,13 @@ pub fn run_once(c: &Case, offset_s: i64) -> Result<Outcome, String> {
             } else {
                 obj.push(b.clone());
             }
+        }
+    }
+    // RFC 5651 allows EXT_TIME with SCT-High only (whole seconds): an independent sender may use that
+    // form; the estimate of the sender clock is then exact to the second, which the +-2 s margin covers
+    if c.sct && c.size % 2 == 0 && c.fdt_delay_ms % 2 == 1 {
+        for p in fdt.iter_mut() {
+            *p = sct_high_only(p);
         }
     }
     let s0 = t0();
@@ -156,6 +186,7 @@ pub fn run_case(c: &Case) -> CaseResult {
     info.label_if(!c.check, "check disabled");
     info.label_if(beyond_ntp, "check disabled and Expires beyond the NTP range");
     info.label_if(c.sct, "SCT present");
+    info.label_if(c.sct && c.size % 2 == 0 && c.fdt_delay_ms % 2 == 1, "SCT-High only form of EXT_TIME");
     info.label_if(c.obj_gap_ms < 0, "object before FDT");
     Ok(info)
 }
